@@ -114,11 +114,16 @@ impl Timestamp {
     pub fn format(&self, format: TimestampFormat, w: &mut impl io::Write) -> Result<(), FormatTimestampError> {
         match format {
             // both descriptions end in a literal `Z` / `GMT`: print the UTC fields
+            // (an instant such as `9999-12-31T23:59:59-01:00` has no four-digit year in UTC: an error, `to_offset` would panic)
             TimestampFormat::DateTime => {
-                self.0.to_offset(time::UtcOffset::UTC).format_into(w, RFC3339)?;
+                let utc = self.0.checked_to_offset(time::UtcOffset::UTC);
+                utc.ok_or(time::error::Format::InvalidComponent("year"))?
+                    .format_into(w, RFC3339)?;
             }
             TimestampFormat::HttpDate => {
-                self.0.to_offset(time::UtcOffset::UTC).format_into(w, RFC1123)?;
+                let utc = self.0.checked_to_offset(time::UtcOffset::UTC);
+                utc.ok_or(time::error::Format::InvalidComponent("year"))?
+                    .format_into(w, RFC1123)?;
             }
             TimestampFormat::EpochSeconds => {
                 let val = self.0.unix_timestamp_nanos();
